@@ -107,11 +107,13 @@ func runC08(tier string, seed uint64) {
 				s.Get(b, "obj", "")
 				s.Head(b, "obj", "")
 				s.Get(b, "new", "")
+				s.Get(b, "nd/sub/new", "")
 				s.List(ListReq{Bucket: b, MaxKeys: -1})
+				s.List(ListReq{Bucket: b, Delim: "/", MaxKeys: -1}) // a refused upload leaves no trace in the hierarchy either
 				s.ListParts(b, "mp", uid, -1, -1)
 			}
 			cl := func(n int) [2]string { return [2]string{"Content-Length", strconv.Itoa(n)} }
-			for _, key := range []string{"obj", "new"} {
+			for _, key := range []string{"obj", "new", "nd/sub/new"} {
 				// digest x declared length, for a 12-byte, an empty and a 1-byte body
 				for bi, body := range [][]byte{body, {}, []byte("x")} {
 					digests := digests
@@ -133,8 +135,8 @@ func runC08(tier string, seed uint64) {
 							r := s.PutRaw(b, key, hdr, body, -1)
 							nontrivial(fmt.Sprint(kind, noInt, key, dn, delta, len(body)))
 							snapshot()
-							if r.Status == 200 && key == "new" {
-								s.Delete(b, "new")
+							if r.Status == 200 && key != "obj" {
+								s.Delete(b, key)
 							}
 							if r.Status == 200 && key == "obj" {
 								s.Put(b, "obj", []byte("the previous object"), []KV{{"X-Amz-Meta-Keep", "me"}, {"Content-Type", "text/x-prev"}})
@@ -148,8 +150,8 @@ func runC08(tier string, seed uint64) {
 						r := s.ChunkedPut(b, key, pl, []int{5}, nil, declared%2 == 1, declared)
 						nontrivial(fmt.Sprint(kind, noInt, key, "chunked", len(pl), declared))
 						snapshot()
-						if r.Status == 200 && key == "new" {
-							s.Delete(b, "new")
+						if r.Status == 200 && key != "obj" {
+							s.Delete(b, key)
 						}
 						if r.Status == 200 && key == "obj" {
 							s.Put(b, "obj", []byte("the previous object"), []KV{{"X-Amz-Meta-Keep", "me"}, {"Content-Type", "text/x-prev"}})
@@ -245,6 +247,41 @@ func runC08(tier string, seed uint64) {
 			s.PartRaw(b, "mp", uid, "1", [][2]string{{"Content-Length", "0"}}, []byte{}, -1)
 			snapshot()
 			_ = rng
+			// an upload the backend itself refuses (real directories: a path segment longer than a file name
+			// can be) is a rejected upload like any other: nothing of it stays, not even the directories
+			{
+				raw := func() string {
+					var sb strings.Builder
+					for _, q := range []string{"", "?delimiter=%2F", "?prefix=nd2%2F", "?prefix=nd2%2F&delimiter=%2F"} {
+						r := do(s.h, Req{Method: "GET", Path: "/" + b + q})
+						sb.WriteString(fmt.Sprint(r.Status, xmlAll(string(r.Body), "Key"), xmlAll(string(r.Body), "Prefix"), ";"))
+					}
+					g := do(s.h, Req{Method: "GET", Path: "/" + b + "/obj"})
+					sb.WriteString(fmt.Sprint(g.Status, string(g.Body)))
+					return sb.String()
+				}
+				for _, k := range []string{"nd2/sub/" + strings.Repeat("t", 256), "nd2/" + strings.Repeat("u", 300) + "/leaf"} {
+					before := raw()
+					r := do(s.h, Req{Method: "PUT", Path: "/" + b + "/" + k, Body: body})
+					if r.Status < 400 {
+						do(s.h, Req{Method: "DELETE", Path: "/" + b + "/" + k})
+						continue
+					}
+					after := raw()
+					msg := fmt.Sprintf("%s: PUT of a key the backend cannot store (a path segment longer than 255 bytes) answers %d; listings and the other object before: %s after: %s", kind, r.Status, before, after)
+					if before == after {
+						emit("c08", "GOOD", hs(msg))
+					} else {
+						emit("c08", "BAD", hs("S:refused-upload-left-a-trace "+msg))
+					}
+					g := do(s.h, Req{Method: "GET", Path: "/" + b + "/" + k})
+					d := do(s.h, Req{Method: "DELETE", Path: "/" + b + "/" + k})
+					if g.Status != 404 || d.Status != 204 {
+						emit("c08", "BAD", hs(fmt.Sprintf("S:absent-key-not-NoSuchKey %s: the refused key afterwards answers GET %d DELETE %d (a key that was never stored reads as NoSuchKey and deletes quietly)", kind, g.Status, d.Status)))
+					}
+					nontrivial(fmt.Sprint(kind, "backend-refused-upload", len(k)))
+				}
+			}
 			s.end()
 		}
 	}
